@@ -48,6 +48,15 @@ func execOrder(vec J, out *Writer) {
 	arch, _ := dependency.ParseArch(target)
 	runs := []interface{}{}
 	panicked := false
+	if pw, ok := vec["prewarm"].(string); ok && pw != "" && parsed {
+		// the same parsed sources were ordered for ANOTHER architecture before: a question asked earlier changes nothing
+		func() {
+			defer func() { recover() }()
+			if other, err := dependency.ParseArch(pw); err == nil {
+				control.OrderDSCForBuild(append([]control.DSC{}, dscs...), *other)
+			}
+		}()
+	}
 	if parsed {
 		for r := 0; r < 5; r++ {
 			func() {
